@@ -249,7 +249,18 @@ func (c *Ctx) callFunction(st *State, fn *ssa.Function, args []Value) (*State, V
 	}
 	c.depth++
 	c.stack = append(c.stack, fn.Name())
-	defer func() { c.depth--; c.stack = c.stack[:len(c.stack)-1] }()
+	defer func() {
+		if r := recover(); r != nil {
+			if ee, ok := r.(engineErr); ok && !strings.Contains(string(ee), " @[") {
+				r = engineErr(string(ee) + " @[" + c.where() + "]")
+			}
+			c.depth--
+			c.stack = c.stack[:len(c.stack)-1]
+			panic(r)
+		}
+		c.depth--
+		c.stack = c.stack[:len(c.stack)-1]
+	}()
 	c.funcsSeen[name]++
 
 	fi := c.info(fn)
